@@ -29,7 +29,7 @@
 const char *target_name = "popen";
 
 enum { L_DIED_BETWEEN_SIGNALS, L_IGNORED_TERM_UNTIL_KILL, L_EXITED_BEFORE_CLOSE, L_CLOSE_BEFORE_EXIT, L_DIES_ON_FIRST_TERM, L_STOP_CONT, L_MULTI_REQUEST,
-       L_REAL_CHILD, L_TYPE_R, L_TYPE_W, L_M0, L_M1, L_M2, L_M3, L_EXIT_AT_TIMER_INSTANT, L_NEVER_CLOSED_EXIT, L_KILL_TO_ZOMBIE, L_DIES_ON_NTH_TERM };
+       L_REAL_CHILD, L_TYPE_R, L_TYPE_W, L_M0, L_M1, L_M2, L_M3, L_EXIT_AT_TIMER_INSTANT, L_NEVER_CLOSED_EXIT, L_KILL_TO_ZOMBIE, L_DIES_ON_NTH_TERM, L_FORK_FAILS, L_STRANGER_DIES_TOO };
 
 #define FAILC(tag, ...) vz_fail("C19", tag, __VA_ARGS__)
 static void fail_any(const char *tag, const char *fmt, ...)
@@ -52,6 +52,9 @@ struct req {
 static struct req reqs[MAXR]; static int nreq;
 static int virt_active, in_main, next_pid = 7000;
 static struct req *forking;
+static int fork_fail_once;            /* the next fork() of the library fails with EAGAIN */
+/* children of the application that the library knows nothing about; they end at the same moments as popen children */
+static int stranger_pid[16], stranger_st[16], nstrangers, strangers_alive;
 
 pid_t __real_fork(void);
 pid_t __real_wait4(pid_t, int *, int, struct rusage *);
@@ -64,6 +67,10 @@ static void child_dies(struct req *r, int st)
 	if (c->state != CS_RUNNING && c->state != CS_STOPPED) return;
 	c->q[c->nq++] = st; c->state = CS_ZOMBIE; c->died_at = vk_now();
 	vz_log("  child %d dies (status 0x%x) at +%lld ms", c->pid, st, (long long)((vk_now() - 1000 * VK_NS) / 1000000));
+	if (nstrangers < 16 && ch_n(4) == 0) {
+		stranger_pid[nstrangers] = next_pid++; stranger_st[nstrangers] = ch_n(2) ? 0 : SIGKILL; nstrangers++; strangers_alive++;
+		vz_label(L_STRANGER_DIES_TOO); vz_log("  (an unrelated child %d of the application ends at the same moment)", stranger_pid[nstrangers - 1]);
+	}
 	if (r->closed && c->nkills > 0 && c->nkills < 16) vz_label(L_DIED_BETWEEN_SIGNALS);
 	if (!r->closed) vz_label(L_EXITED_BEFORE_CLOSE);
 	raise(SIGCHLD);
@@ -71,6 +78,7 @@ static void child_dies(struct req *r, int st)
 pid_t __wrap_fork(void)
 {
 	if (!virt_active || !forking || forking->real) return __real_fork();
+	if (fork_fail_once) { fork_fail_once = 0; vz_log("  fork() -> EAGAIN"); errno = EAGAIN; return -1; }
 	struct vchild *c = &forking->c;
 	c->pid = next_pid++; c->state = CS_RUNNING;
 	vz_log("  fork() -> virtual child %d", c->pid);
@@ -80,6 +88,14 @@ pid_t __wrap_wait4(pid_t pid, int *status, int options, struct rusage *ru)
 {
 	if (!virt_active) return __real_wait4(pid, status, options, ru);
 	int any = 0;
+	/* the unrelated children are reported first */
+	if (strangers_alive) {
+		int k = nstrangers - strangers_alive; strangers_alive--;
+		if (status) *status = stranger_st[k];
+		if (ru) memset(ru, 0, sizeof *ru);
+		vz_log("  wait4 -> pid %d status 0x%x (unrelated child)", stranger_pid[k], stranger_st[k]);
+		return stranger_pid[k];
+	}
 	for (int i = 0; i < nreq; i++) {
 		struct vchild *c = &reqs[i].c;
 		if (reqs[i].real) continue;
@@ -216,6 +232,17 @@ static void request_submit(int i)
 		}
 	} else {
 		r->iv->file = "/nonexistent/virtual-child"; r->argv[0] = "virtual"; r->argv[1] = NULL; r->iv->argv = r->argv; r->iv->type = r->type_r ? "r" : "w";
+		if (ch_n(6) == 0) {
+			/* the system is out of processes for a moment: the submission fails, leaves nothing behind, and is simply made again */
+			fork_fail_once = 1; forking = r;
+			int fd = iv_popen_request_submit(r->iv);
+			forking = NULL;
+			vz_label(L_FORK_FAILS); vz_log("  request %d: submit with a failing fork() -> %d", i, fd);
+			if (fork_fail_once) { fork_fail_once = 0; fail_any("no-fork", "iv_popen_request_submit did not call fork()"); }
+			if (fd >= 0) fail_any("submit-ignored-fork-failure", "iv_popen_request_submit returned descriptor %d although fork() failed", fd);
+			memset(r->iv, 0xA5, sizeof *r->iv); IV_POPEN_REQUEST_INIT(r->iv);
+			r->iv->file = "/nonexistent/virtual-child"; r->iv->argv = r->argv; r->iv->type = r->type_r ? "r" : "w";
+		}
 		forking = r;
 		r->fd = iv_popen_request_submit(r->iv);
 		forking = NULL;
